@@ -265,8 +265,10 @@ class Tymer(Tymee):
         """
         # remember current duration when duration not provided
         duration = float(duration) if duration is not None else self.duration
-        self._start = float(start) if start is not None else self.tyme
-        self._stop = self._start + duration
+        start = float(start) if start is not None else self.tyme
+        stop = start + duration  # raises when not wound, before anything is assigned
+        self._start = start
+        self._stop = stop
         return self._start
 
 
